@@ -20,9 +20,13 @@ LEVEL_NOTE = ("Lean kernel + standard axioms; symbolic (Dolev-Yao) secrecy only:
               "guessing (the deterministic salt H(rw_uri) lets a holder of a candidate write cap confirm it); the MAC is "
               "produced but, as in the code, not checked.")
 RULE = ("random nested directory graphs (as C21: mutable SDMF/MDMF directories with cycles, immutable directories, "
-        "CHK/LIT/mutable files, unknown caps with ro./imm. prefixes, links by write cap and by read cap) on the grid; "
-        "a case = one directory examined through its write cap and its read cap, plus one walk of all descendants from "
-        "the read-only root; non-trivial = the directory has a child linked by write cap")
+        "CHK/LIT/mutable files, unknown caps with ro./imm. prefixes, links by write cap and by read cap) on the grid, each "
+        "examined COLD (a second client that never saw a write cap opens the read caps) and WARM (the client that built "
+        "the tree first lists all of it through the write cap, keeps every node alive, then opens the read caps); "
+        "a case = one directory examined through its write cap and its read cap (cold and warm), or one walk of all "
+        "descendants from the read-only root incl. write attempts (set_uri / delete on directories, overwrite on mutable "
+        "files) that must be refused and change nothing; non-trivial = the directory has a child linked by write cap / "
+        "the walk reaches at least 2 nodes")
 TRUSTED = ["lean/Tahoe/Dir/Authority.lean: term algebra and derivation rules chosen by hand to mirror _encrypt_rw_uri",
            "harness/props/c19.py helpers (re-framing of ciphertexts, cap classification by the real uri.from_string)"]
 ASSUMPTIONS = ["ideal cryptography (symbolic model); write keys of distinct objects are independent secrets",
@@ -34,95 +38,209 @@ import common
 from common import hx
 from props import c19, c21
 
+PROBE = "c18-probe"
+MAX_PROBES = 6          # write attempts per walk
 
-def walk_ro(ctx, rt, node, case, depth, seen):
-    """every descendant reached from a read-only handle must be read-only"""
+
+def guarded(ctx, case, what, f):
+    """run a piece of the scenario on the real code; an exception is recorded for this case and the run goes on"""
+    import traceback
+    try:
+        return True, f()
+    except Exception as e:  # noqa
+        ctx.disagree("the real code raised during: " + what, {"what": what, "case": case},
+                     "%s: %s | %s" % (type(e).__name__, e, traceback.format_exc()[-600:]), None)
+        ctx.count("exception:" + type(e).__name__)
+        return False, None
+
+
+def check_node(ctx, case, label, path, node, writecaps):
+    """the statement, on one node obtained through a read-only directory (or the read-only root itself)"""
+    V = lambda what, sig: ctx.violation(what, case, sig + ":" + label, {"path": path, "phase": label})
+    w = node.get_write_uri()
+    if node.is_unknown():
+        if w:
+            V("an unknown node obtained through a read-only directory has a rw_uri", "ro-descendant-unknown-rw")
+        return
+    if w is not None:
+        V("a node obtained through a read-only directory exposes a write cap", "ro-descendant-has-writecap")
+    if not node.is_readonly():
+        V("a node obtained through a read-only directory is not read-only", "ro-descendant-writeable")
+    if node.get_uri() in writecaps:
+        V("get_uri() of a node obtained through a read-only directory is a write cap of the tree", "ro-descendant-uri-is-writecap")
+
+
+def probe_write(ctx, W, case, label, path, node, caps, nodes):
+    """a modifying call through a node obtained read-only must be refused and change nothing"""
+    from allmydata.interfaces import IDirectoryNode, IMutableFileNode
+    from allmydata.mutable.publish import MutableData
+    from allmydata.mutable.common import NotWriteableError
+    rt = W["rt"]
+    V = lambda what, sig: ctx.violation(what, case, sig + ":" + label, {"path": path, "phase": label})
+    if IDirectoryNode.providedBy(node):
+        if not node.is_mutable():
+            return False
+        owner = [i for i, cp in caps.items() if cp["ro"] == node.get_readonly_uri() and i in nodes]
+        before = sorted(rt.wait(nodes[owner[0]].list())) if owner else None
+        outcome = []
+        for what, call in (("set_uri", lambda: node.set_uri(PROBE, None, b"URI:LIT:obuw63q")),
+                           ("delete", lambda: node.delete(before[0] if before else PROBE))):
+            try:
+                rt.wait(call())
+                outcome.append(what + ":accepted")
+                V("a modifying call (%s) through a read-only directory was accepted" % what, "ro-modify-accepted:dir")
+            except NotWriteableError:
+                outcome.append(what + ":NotWriteableError")
+            except Exception as e:  # noqa  -- refused, by some other error
+                outcome.append(what + ":" + type(e).__name__)
+        if owner:
+            after = sorted(rt.wait(nodes[owner[0]].list()))
+            if after != before:
+                V("a directory was changed through a read-only handle", "ro-modify-changed:dir")
+                for nm_ in set(after) - set(before):          # leave the scenario as it was
+                    try:
+                        rt.wait(nodes[owner[0]].delete(nm_))
+                    except Exception:
+                        pass
+        for o in outcome:
+            ctx.count("probe-dir:" + o)
+        return True
+    if IMutableFileNode.providedBy(node):
+        old = rt.wait(node.download_best_version())
+        try:
+            rt.wait(node.overwrite(MutableData(b"OVERWRITTEN through a read-only directory")))
+            ctx.count("probe-file:accepted")
+            V("overwrite() of a mutable file obtained through a read-only directory was accepted", "ro-modify-accepted:file")
+        except Exception as e:  # noqa
+            ctx.count("probe-file:" + type(e).__name__)
+        new = rt.wait(node.download_best_version())
+        if new != old:
+            V("a mutable file was changed through a read-only directory", "ro-modify-changed:file")
+        return True
+    return False
+
+
+def walk_ro(ctx, W, case, label, node, path, writecaps, caps, nodes, seen, state):
+    """every child and descendant obtained through a read-only directory must be read-only or weaker"""
     from allmydata.interfaces import IDirectoryNode
-    n_checked = 0
-    if depth > 6:
-        return 0
+    rt = W["rt"]
+    if len(path) > 6:
+        return
     ch = rt.wait(node.list())
     for name, (child, md) in sorted(ch.items()):
-        n_checked += 1
-        if child.is_unknown():
-            if child.get_write_uri():
-                ctx.violation("an unknown child reached through a read-only directory has a rw_uri", case, "ro-descendant-unknown-rw")
-            continue
-        if child.get_write_uri() is not None or not child.is_readonly():
-            ctx.violation("a descendant reached through a read-only directory is writeable", case, "ro-descendant-writeable",
-                          {"name": name, "depth": depth})
+        state["n"] += 1
+        p = path + [name]
+        check_node(ctx, case, label, p, child, writecaps)
+        if not child.is_unknown() and state["probes"] < MAX_PROBES:
+            ok, did = guarded(ctx, case, "write attempt at %r (%s)" % (p, label),
+                              lambda: probe_write(ctx, W, case, label, p, child, caps, nodes))
+            if ok and did:
+                state["probes"] += 1
+        if IDirectoryNode.providedBy(child) and child.get_readonly_uri() not in seen:
+            seen.add(child.get_readonly_uri())
+            walk_ro(ctx, W, case, label, child, p, writecaps, caps, nodes, seen, state)
+
+
+def list_all(rt, node, held, seen, depth=0):
+    """list the whole tree through the write cap, keeping every node object alive in `held`"""
+    from allmydata.interfaces import IDirectoryNode
+    if depth > 8:
+        return
+    ch = rt.wait(node.list())
+    held.append(ch)
+    for name, (child, md) in sorted(ch.items()):
+        held.append(child)
         if IDirectoryNode.providedBy(child) and child.get_uri() not in seen:
             seen.add(child.get_uri())
-            n_checked += walk_ro(ctx, rt, child, case, depth + 1, seen)
-    return n_checked
+            list_all(rt, child, held, seen, depth + 1)
 
 
-def one_case(ctx, w, case, lines, impls, cases):
-    rt, c = w["rt"], w["c"]
-    root = c21.build(w, case)
+def examine_dir(ctx, W, case, label, i, o, dn, dnro, caps, writecaps, lines, impls, cases):
+    """one mutable directory through its write handle `dn` and a handle `dnro` opened from its read cap"""
+    rt = W["rt"]
+    V = lambda what, sig, d=None: ctx.violation(what, case, sig + ":" + label, d)
+    if dnro.get_write_uri() is not None or not dnro.is_readonly():
+        V("a directory opened by its read cap is writeable", "readcap-opens-writeable")
+    data = rt.wait(dnro._node.download_best_version())       # what a read-cap holder can decrypt
+    # ---- the plaintext reveals no write cap (neither a child's nor any other object's)
+    for wc in writecaps:
+        if wc in data:
+            V("the directory plaintext readable with the read cap contains a write cap", "plaintext-contains-writecap")
+        parts = wc.split(b":")
+        if len(parts) >= 4 and parts[2] in data:
+            V("the directory plaintext readable with the read cap contains a write key", "plaintext-contains-writekey")
+    # ---- through the read cap: children have no write authority; through the write cap: it is recovered
+    ch_ro = rt.wait(dnro.list())
+    ch_rw = rt.wait(dn.list())
+    linked_rw = False
+    want = {}
+    for (name, t, mode) in o["links"]:
+        want[name] = (t, mode)         # dict semantics of set_children: the last link of a name wins
+    for name, (t, mode) in want.items():
+        cp = caps[t]
+        if name not in ch_ro or name not in ch_rw:
+            V("a linked child is missing from a listing", "child-missing")
+            continue
+        n_ro = ch_ro[name][0]
+        n_rw = ch_rw[name][0]
+        check_node(ctx, case, label, [name], n_ro, writecaps)
+        if mode == "rw" and cp["rw"] is not None:
+            linked_rw = True
+            if n_rw.get_write_uri() != cp["rw"]:
+                V("the write cap of a child is not recovered with the directory's write cap", "writecap-not-recovered")
+        if n_ro.get_readonly_uri() != n_rw.get_readonly_uri():
+            V("read handle and write handle disagree on a child's read cap", "ro-rw-readcap-differ")
+    # ---- correspondence of _unpack_contents through both handles with the model
+    dm = c19.to_model_cipher(dn, data)
+    strs = set()
+    names = []
+    for (nb, ro, rwcap, _) in c19.parse_packed(dm):
+        strs |= {ro, rwcap[16:len(rwcap) - 32] if rwcap else b""}
+        names.append(nb.decode("utf-8"))
+    ct, nt = c19.class_table(strs), c19.norm_table(names)
+    for mode, node in (("mw", dn), ("mr", dnro)):
+        res = node._unpack_contents(data)
+        lines.append("unpack %s %s %s %s" % (mode, ct, nt, hx(dm)))
+        impls.append("ok:" + c19.show_unpacked(res))
+        cases.append({"dir": i, "mode": mode, "phase": label, "case": case})
+    ctx.case(("dir", label, len(want), linked_rw) if linked_rw else None)
+    ctx.count("dir-children:%d" % min(len(want), 6))
+
+
+def one_case(ctx, W, case, lines, impls, cases):
+    rt, writer, stranger = W["rt"], W["c"], W["c2"]
+    w = {"rt": rt, "c": writer}
+    ok, root = guarded(ctx, case, "building the graph", lambda: c21.build(w, case))
+    if not ok:
+        return
     caps, nodes = w["last"]
     objs = case["objs"]
-    all_write_caps = [cp["rw"] for cp in caps.values() if cp["rw"] is not None]
-    for i, o in enumerate(objs):
-        if o["kind"] != "mdir":
-            continue
-        dn = nodes[i]
-        dnro = c.create_node_from_uri(None, caps[i]["ro"])
-        assert dnro.is_readonly() and dnro.get_write_uri() is None
-        data = rt.wait(dnro._node.download_best_version())       # what a read-cap holder can decrypt
-        # ---- monitor: the plaintext reveals no write cap (neither a child's nor any other object's)
-        for wc in all_write_caps:
-            if wc in data:
-                ctx.violation("the directory plaintext readable with the read cap contains a write cap", case,
-                              "plaintext-contains-writecap")
-            # also the bare secret part of the cap (between the 2nd and 3rd colon)
-            parts = wc.split(b":")
-            if len(parts) >= 4 and parts[2] in data:
-                ctx.violation("the directory plaintext readable with the read cap contains a write key", case,
-                              "plaintext-contains-writekey")
-        # ---- through the read cap: children have no write authority; through the write cap: it is recovered
-        ch_ro = rt.wait(dnro.list())
-        ch_rw = rt.wait(dn.list())
-        linked_rw = False
-        want = {}
-        for (name, t, mode) in o["links"]:
-            want[name] = (t, mode)         # dict semantics of set_children: the last link of a name wins
-        for name, (t, mode) in want.items():
-            cp = caps[t]
-            n_ro = ch_ro[name][0]
-            n_rw = ch_rw[name][0]
-            if n_ro.get_write_uri():
-                ctx.violation("a child listed through the read cap has a write cap", case, "ro-child-has-writecap")
-            if not n_ro.is_unknown() and not n_ro.is_readonly():
-                ctx.violation("a child listed through the read cap is not read-only", case, "ro-child-writeable")
-            if mode == "rw" and cp["rw"] is not None:
-                linked_rw = True
-                if n_rw.get_write_uri() != cp["rw"]:
-                    ctx.violation("the write cap of a child is not recovered with the directory's write cap", case,
-                                  "writecap-not-recovered")
-            if n_ro.get_readonly_uri() != n_rw.get_readonly_uri():
-                ctx.violation("read handle and write handle disagree on a child's read cap", case, "ro-rw-readcap-differ")
-        # ---- correspondence of _unpack_contents through both handles with the model
-        dm = c19.to_model_cipher(dn, data)
-        strs = set()
-        names = []
-        for (nb, ro, rwcap, _) in c19.parse_packed(dm):
-            strs |= {ro, rwcap[16:len(rwcap) - 32] if rwcap else b""}
-            names.append(nb.decode("utf-8"))
-        ct, nt = c19.class_table(strs), c19.norm_table(names)
-        for mode, node in (("mw", dn), ("mr", dnro)):
-            res = node._unpack_contents(data)
-            lines.append("unpack %s %s %s %s" % (mode, ct, nt, hx(dm)))
-            impls.append("ok:" + c19.show_unpacked(res))
-            cases.append({"dir": i, "mode": mode, "case": case})
-        ctx.case(("dir", len(want), linked_rw) if linked_rw else None)
-        ctx.count("dir-children:%d" % min(len(want), 6))
-    # ---- every descendant of the root opened by read cap
+    writecaps = sorted(cp["rw"] for cp in caps.values() if cp["rw"] is not None)
     r = case["root"][0]
-    ro_root = c.create_node_from_uri(None, caps[r]["ro"])
-    n = walk_ro(ctx, rt, ro_root, case, 0, {ro_root.get_uri()})
-    ctx.case(("walk", n) if n >= 2 else None)
-    ctx.count("descendants-checked", n)
+    for label, client in (("cold", stranger), ("warm", writer)):
+        held = []
+        if label == "warm":
+            # the writer's client lists the whole tree through the write caps and keeps every node alive
+            guarded(ctx, case, "listing the tree through the write cap",
+                    lambda: [list_all(rt, nodes[i], held, {nodes[i].get_uri()}) for i in sorted(nodes)])
+        for i, o in enumerate(objs):
+            if o["kind"] != "mdir":
+                continue
+            guarded(ctx, case, "examining directory %d (%s)" % (i, label),
+                    lambda: examine_dir(ctx, W, case, label, i, o, nodes[i], client.create_node_from_uri(None, caps[i]["ro"]),
+                                        caps, writecaps, lines, impls, cases))
+        # ---- every descendant of the root opened by its read cap, with write attempts
+        state = {"n": 0, "probes": 0}
+
+        def walk():
+            ro_root = client.create_node_from_uri(None, caps[r]["ro"])
+            check_node(ctx, case, label, [], ro_root, writecaps)
+            walk_ro(ctx, W, case, label, ro_root, [], writecaps, caps, nodes, {caps[r]["ro"]}, state)
+        guarded(ctx, case, "walking from the read-only root (%s)" % label, walk)
+        ctx.case(("walk", label, state["n"], state["probes"]) if state["n"] >= 2 else None)
+        ctx.count("descendants-checked:" + label, state["n"])
+        ctx.count("write-attempts:" + label, state["probes"])
+        del held
 
 
 def run(ctx):
@@ -133,19 +251,19 @@ def run(ctx):
         cases_in = [c["case"] if "case" in c else c]
     else:
         cases_in = [json.loads(json.dumps(c)) for c in c21.CORPUS]
-        for i in range(ctx.budget(30, 300)):
+        for i in range(ctx.budget(22, 250)):
             cases_in.append(c21.gen_graph(ctx.rng, ctx.rng.choice([3, 6, 10, 16, 25])))
     lines, impls, cases = [], [], []
     with grid.Runtime(seed=ctx.seed, policy="random") as rt:
-        g = grid.Grid(grid.fresh_dir("c18"), rt, num_servers=3, num_clients=1, k=1, happy=1, n=2)
+        g = grid.Grid(grid.fresh_dir("c18"), rt, num_servers=3, num_clients=2, k=1, happy=1, n=2)
         try:
-            w = {"rt": rt, "c": g.clients[0]}
+            W = {"rt": rt, "c": g.clients[0], "c2": g.clients[1]}
             for case in cases_in:
-                one_case(ctx, w, case, lines, impls, cases)
+                one_case(ctx, W, case, lines, impls, cases)
         finally:
             g.close()
     model = ctx.model(lines)
     if model is not None:
         ctx.compare("_unpack_contents through write handle / read handle vs the model", cases, impls, model)
     if cases:
-        ctx.sample({"dir": cases[-1]["dir"], "mode": cases[-1]["mode"], "impl": impls[-1][:300]})
+        ctx.sample({"dir": cases[-1]["dir"], "mode": cases[-1]["mode"], "phase": cases[-1]["phase"], "impl": impls[-1][:300]})
